@@ -51,7 +51,7 @@ int main(int argc, char** argv) {
 	return main_loop(argc, argv, [&](Case& c) {
 		static bool init = false; if(!init) { init = true; auto& a = st().args; for(std::size_t i = 0; i + 1 < a.size(); ++i) if(a[i] == "--maxext") MAXE = std::atoi(a[i + 1].c_str()); }
 		Rng& g = c.rng; int const ak = int(g.below(3)); auto e = rnd_ext(g, MAXE); long id = 1;
-		std::vector<L> bs(std::size_t(D), 0); bool const rebased = (c.k % 3 != 2) && g.chance(1, 3); if(rebased) for(auto& x : bs) x = g.in(-2, 2);  // index ranges that do not start at 0 are part of the extents
+		std::vector<L> bs(std::size_t(D), 0); bool const rebased = (c.k % 3 != 2) && g.chance(1, 3); if(rebased) for(auto& x : bs) x = g.in(-2, 2); if(rebased && g.chance(1, 5)) { static L const FAR[] = {3000000000L, -5000000000L, 2147483646L, -2147483650L}; bs[std::size_t(g.below(D))] = FAR[g.below(4)] + g.in(0, 3); count("first-indices-beyond-32-bits"); }  // index ranges that do not start at 0 are part of the extents
 		Arr A(make_extensions<D>(bs, e)); for(L k = 0; k < A.num_elements(); ++k) A.data_elements()[k] = mk(id++);
 		if(c.k % 3 != 2) {  // ---- whole-array round trip into an array in some prior state
 			int const prior = int(g.below(6)); static char const* PN[] = {"empty", "same-extents", "other-extents", "larger", "moved-from", "same-count-other-extents"};
